@@ -135,6 +135,22 @@ Definition go_rd_u16 := go_rd_be 2.
 Definition go_rd_u32 := go_rd_be 4.
 Definition go_rd_u64 := go_rd_be 8.
 
+(* float32 / float64 values are their IEEE 754 bit patterns; the only operation on them is the exact widening
+   float64(f) of a float32: sign, exponent re-bias, subnormals normalised, NaNs quieted (what the hardware conversion
+   does). The self-test compares it with the Go conversion on boundary patterns. *)
+Definition go_f32_to_f64 (bz : Z) : Z :=
+  let b := Z.to_N bz in
+  let s := (b / 2147483648)%N in let e := ((b / 8388608) mod 256)%N in let m := (b mod 8388608)%N in
+  let s64 := (s * 9223372036854775808)%N in
+  Z.of_N
+  (if (e =? 255)%N then (if (m =? 0)%N then s64 + 2047 * 4503599627370496
+                    else s64 + 2047 * 4503599627370496 + 2251799813685248 + (m mod 4194304) * 536870912)
+  else if (e =? 0)%N then
+    (if (m =? 0)%N then s64
+     else let k := N.log2 m in
+          s64 + (k + 874) * 4503599627370496 + (m - 2 ^ k) * 2 ^ (52 - k))
+  else s64 + (e + 896) * 4503599627370496 + m * 536870912)%N.
+
 (* sort.Search(n, f): the binary search of package sort, literally:
      i, j := 0, n; for i < j { h := int(uint(i+j) >> 1); if !f(h) { i = h + 1 } else { j = h } }; return i
    f is called on indexes in [0, n) only; [f h = None] stands for a run-time check failing inside f (the search panics).
